@@ -217,21 +217,27 @@ def has_integral(enc):
 
 
 def compare_runs(res):
-    a, b = res['int'], res['flt']
+    out = compare_two(res['int'], res['flt'], 'flt')
+    if out is None and 'mix' in res:
+        out = compare_two(res['int'], res['mix'], 'mix')         # both spellings side by side in one call (e.g. category 1 and 1.0)
+    return out
+
+
+def compare_two(a, b, other):
     if 'exc' in a or 'exc' in b:
         if a.get('exc') == b.get('exc'):
             return None
-        return {'class': 'script-raised-differently', 'int': a, 'flt': b}
+        return {'class': 'script-raised-differently', 'int': a, other: b}
     ca, cb = canon(a['dump']), canon(b['dump'])
     if ca['vars'][0] != cb['vars'][0]:
         return {'class': 'result-differs', 'int': {'result': a['dump']['vars'][0], 'failed': a['failed']},
-                'flt': {'result': b['dump']['vars'][0], 'failed': b['failed']}}
+                other: {'result': b['dump']['vars'][0], 'failed': b['failed']}}
     if ca != cb:
-        return {'class': 'arguments-after-call-differ', 'int': a['dump'], 'flt': b['dump']}
+        return {'class': 'arguments-after-call-differ', 'int': a['dump'], other: b['dump']}
     if bool(a['failed']) != bool(b['failed']):
-        return {'class': 'failure-behaviour-differs', 'int': a['failed'], 'flt': b['failed']}
+        return {'class': 'failure-behaviour-differs', 'int': a['failed'], other: b['failed']}
     if a['logs'] != b['logs']:
-        return {'class': 'log-output-differs', 'int': a['logs'], 'flt': b['logs']}
+        return {'class': 'log-output-differs', 'int': a['logs'], other: b['logs']}
     return None
 
 
